@@ -225,6 +225,21 @@ func Run(args []string) int {
 				}
 				return
 			}
+			// the same data without the name of the file that defines the stage (mrg then looks
+			// the stage up in every file on the path): the call must compile as well
+			{
+				inv0 := inv
+				inv0.Include = ""
+				if text0, err := inv0.BuildCallSource([]string{dir}); err != nil {
+					add("data-to-call-fails-without-include", err.Error(), "")
+				} else {
+					var p0 syntax.Parser
+					if _, _, _, err := p0.ParseSourceBytes([]byte(text0), path.Join(dir, "call0.mro"), []string{dir}, false); err != nil && !emptySplitRe.MatchString(text0) {
+						add("call-does-not-compile-without-include", err.Error(), text0)
+					}
+					counts["calls_built_without_include"]++
+				}
+			}
 			// its bindings are what the model says
 			ast, err := p.UncheckedParse([]byte(text), path.Join(dir, "call.mro"))
 			if err != nil || ast.Call == nil {
